@@ -189,7 +189,11 @@ func concat(lhs, rhs *sysl.Value_List) *sysl.Value {
 	result := MakeValueList()
 	{
 		result := result.GetList()
-		result.Value = lhs.Value
+		// copy: appending to lhs.Value itself would write into the spare capacity of
+		// the left operand's array, which a second concatenation on the same operand
+		// (or an earlier result) shares
+		result.Value = make([]*sysl.Value, 0, len(lhs.Value)+len(rhs.Value))
+		result.Value = append(result.Value, lhs.Value...)
 		result.Value = append(result.Value, rhs.Value...)
 		logrus.Tracef("concatList: lhs %d | rhs %d = %d\n", len(lhs.Value), len(rhs.Value), len(result.Value))
 	}
